@@ -4,6 +4,7 @@ pub mod refcal;
 pub mod env;
 pub mod c01;
 pub mod c12;
+pub mod c11;
 
 #[cfg(kani)]
 mod gen;
@@ -17,5 +18,6 @@ pub fn registry() -> Vec<(&'static str, Body)> {
   let mut v: Vec<(&'static str, Body)> = Vec::new();
   v.extend(c01::registry());
   v.extend(c12::registry());
+  v.extend(c11::registry());
   v
 }
